@@ -10,6 +10,7 @@ func Reset() {
 	ops = nil
 	clock = 0
 	nextIno = 0
+	freeInos = nil
 	CopyFileRangeMode = 0
 	ensureRoot()
 }
